@@ -245,6 +245,15 @@ def check_pair(run, rule, struct, wfn, rfn, width_rule=None, label=None):
 def reset_clears(facts, struct, member, rfn):
     """True if after reset()/at the start of read() the optional/vector member is empty."""
     cands = facts.fns(struct + "::reset") + facts.fns(struct + "::clear")
+    # reset()/clear() only count if read() really calls them before its loop
+    called = set()
+    for s_ in ir.stmts(rfn["body"]):
+        if s_.get("k") in ("While", "For", "Do"):
+            break
+        for c in ir.calls_in(s_):
+            if c.get("k") == "MCall" and unwrap(c.get("recv") or {}).get("k") == "This":
+                called.add(callee_qn(c))
+    cands = [f for f in cands if f["qn"] in called]
     verdict = None
     for f in cands + [rfn]:
         body = ir.stmts(f["body"])
